@@ -65,3 +65,71 @@ package strategy
 //@     invariant need >= 1 && msum(deploy) + need == old(need) && fresh(deploy) && deploy != nil
 //@     invariant forall n string :: n in deploy ==> exists k :: 0 <= k && k < idx && infosCopy[k].Nodename == n
 //@                            && 0 <= deploy[n] && deploy[n] <= infosCopy[k].Capacity
+
+//@ # ---------- AUTO (CommunismPlan) ----------
+
+//@ pred kept(e Info, limit int) = !(e.Capacity == 0 || (limit > 0 && e.Count >= limit))
+
+//@ func newInfoHeap
+//@   requires validInfos(infos, 1, limit)
+//@   result is *infoHeap
+//@   ensures[C01.heap-new] fresh(result) && fresh(result.infos) && allocated(result.infos) && result.limit == limit
+//@   ensures[C01.heap-new-sound] forall k :: 0 <= k && k < len(result.infos) ==> kept(result.infos[k], limit)
+//@                                 && exists i :: 0 <= i && i < len(infos) && infos[i] == result.infos[k]
+//@   ensures[C01.heap-new-distinct] forall a, b :: 0 <= a && a < b && b < len(result.infos) ==> result.infos[a].Nodename != result.infos[b].Nodename
+//@   loop 1:
+//@     invariant fresh(dup.infos) && allocated(dup.infos) && dup.limit == limit && len(dup.infos) <= rangeindex + 1
+//@     invariant forall k :: 0 <= k && k < len(dup.infos) ==> kept(dup.infos[k], limit)
+//@                                 && exists i :: 0 <= i && i <= rangeindex && infos[i] == dup.infos[k]
+//@     invariant forall a, b :: 0 <= a && a < b && b < len(dup.infos) ==> dup.infos[a].Nodename != dup.infos[b].Nodename
+
+//@ func CommunismPlan
+//@   requires validInfos(infos, need, limit)
+//@   ensures[C01.auto-keys]  err == nil ==> forall n string :: n in result0 ==> exists i :: 0 <= i && i < len(infos)
+//@                              && infos[i].Nodename == n && 1 <= result0[n] && result0[n] <= infos[i].Capacity
+//@                              && (limit > 0 ==> infos[i].Count + result0[n] <= limit)
+//@   ensures[C01.auto-total] err == nil ==> msum(result0) == need
+//@   ensures[C01.auto-refuse] err != nil ==> result0 == nil
+//@   loop 1:
+//@     invariant fresh(iHeap) && fresh(iHeap.infos) && allocated(iHeap) && allocated(iHeap.infos) && iHeap.limit == limit
+//@     invariant hsize(iHeap) == len(iHeap.infos) && hordered(iHeap)
+//@     invariant need >= 1 && need <= old(need) && msum(deploy) + need == old(need) && fresh(deploy) && deploy != nil
+//@     invariant forall e Info :: hcount(iHeap, e) >= 0 && hcount(iHeap, e) <= 1 && (hcount(iHeap, e) > 0 ==> len(iHeap.infos) >= 1)
+//@     invariant forall e1, e2 Info :: hcount(iHeap, e1) > 0 && hcount(iHeap, e2) > 0 && e1.Nodename == e2.Nodename ==> e1 == e2
+//@     invariant forall e Info :: hcount(iHeap, e) > 0 ==> kept(e, limit) && e.Capacity >= 1
+//@                  && exists i :: 0 <= i && i < len(infos) && infos[i].Nodename == e.Nodename
+//@                       && e.Capacity == infos[i].Capacity - deploy[e.Nodename]
+//@                       && e.Count == infos[i].Count + deploy[e.Nodename]
+//@     invariant forall n string :: n in deploy ==> exists i :: 0 <= i && i < len(infos) && infos[i].Nodename == n
+//@                       && 1 <= deploy[n] && deploy[n] <= infos[i].Capacity && deploy[n] <= old(need) - need
+//@                       && (limit > 0 ==> infos[i].Count + deploy[n] <= limit)
+
+//@ # ---------- GLOBAL (GlobalPlan) ----------
+
+//@ func GlobalPlan
+//@   requires validInfos(infos, need, 0)
+//@   ensures[C01.global-keys]  err == nil ==> forall n string :: n in result0 ==> exists i :: 0 <= i && i < len(infos)
+//@                              && infos[i].Nodename == n && 1 <= result0[n] && result0[n] <= infos[i].Capacity
+//@   ensures[C01.global-total] err == nil ==> msum(result0) == need
+//@   ensures[C01.global-refuse] err != nil ==> result0 == nil
+//@   loop 1:
+//@     invariant fresh(infoHeap) && allocated(infoHeap) && infoHeap != nil && (arr(*infoHeap) == 0 || (fresh(*infoHeap) && allocated(*infoHeap)))
+//@     invariant fresh(strategyInfos) && allocated(strategyInfos) && len(strategyInfos) == len(infos)
+//@     invariant forall k :: 0 <= k && k < len(infos) ==> strategyInfos[k] == infos[k]
+//@     invariant len(*infoHeap) <= rangeindex + 1
+//@     invariant forall k :: 0 <= k && k < len(*infoHeap) ==> (*infoHeap)[k].Capacity >= 1
+//@                  && exists i :: 0 <= i && i <= rangeindex && infos[i] == (*infoHeap)[k]
+//@     invariant forall a, b :: 0 <= a && a < b && b < len(*infoHeap) ==> (*infoHeap)[a].Nodename != (*infoHeap)[b].Nodename
+//@     invariant card(deployMap) == 0 && msum(deployMap) == 0 && fresh(deployMap) && deployMap != nil && forall n string :: !(n in deployMap)
+//@   loop 2:
+//@     invariant fresh(infoHeap) && allocated(infoHeap) && infoHeap != nil && (arr(*infoHeap) == 0 || (fresh(*infoHeap) && allocated(*infoHeap)))
+//@     invariant hsize(infoHeap) == len(*infoHeap) && hordered(infoHeap)
+//@     invariant 0 <= i && i <= need && msum(deployMap) == i && fresh(deployMap) && deployMap != nil
+//@     invariant forall e Info :: hcount(infoHeap, e) >= 0 && hcount(infoHeap, e) <= 1 && (hcount(infoHeap, e) > 0 ==> len(*infoHeap) >= 1)
+//@     invariant forall e1, e2 Info :: hcount(infoHeap, e1) > 0 && hcount(infoHeap, e2) > 0 && e1.Nodename == e2.Nodename ==> e1 == e2
+//@     invariant forall e Info :: hcount(infoHeap, e) > 0 ==> e.Capacity >= 1
+//@                  && exists j :: 0 <= j && j < len(infos) && infos[j].Nodename == e.Nodename
+//@                       && e.Capacity == infos[j].Capacity - deployMap[e.Nodename]
+//@     invariant forall n string :: n in deployMap ==> exists j :: 0 <= j && j < len(infos) && infos[j].Nodename == n
+//@                       && 1 <= deployMap[n] && deployMap[n] <= infos[j].Capacity && deployMap[n] <= i
+//@     decreases need - i
